@@ -1,8 +1,10 @@
 (* MV.C04.Properties — property C04 ("a failing actor is suspended and the supervisor's directive is applied")
-   on the kernel model. PARTIAL: the statements proved so far are the two mechanisms the property rests on;
-   the trace-level statement "no user message is handled between a failure and the decision" is checked on every
-   run by the lockstep harness and its monitor (C04:user-message-before-decision) but not yet proved. *)
-From MV Require Import Lib.ListX Kernel.Model Kernel.Run Kernel.Lifecycle Kernel.Status Kernel.Registry Kernel.Suspend.
+   on the kernel model and on the strategy-layer model. PARTIAL: proved are the mechanisms the property rests on and
+   the statement "no user message reaches the failing actor until the decision" in its state form
+   (C04_no_user_message_until_decision_step, _run); that the failing step leaves the actor suspended with nothing in flight,
+   and the effects of each directive, are checked on every run by the lockstep harness (step equality with the
+   model, monitor C04:user-message-before-decision), not by theorem. *)
+From MV Require Import Lib.ListX Kernel.Model Kernel.Run Kernel.Lifecycle Kernel.Status Kernel.Registry Kernel.Suspend Kernel.Queue Kernel.NoUser.
 Open Scope Z_scope.
 
 (* a suspended mailbox never hands a user message to the actor: with nothing in flight, the runner of a
@@ -28,6 +30,36 @@ Theorem C04_suspension_lifted_only_by_directive : forall roles ls s os l s' o u 
 Proof. exact suspension_lifted_only_by_directive_reachable. Qed.
 Print Assumptions C04_suspension_lifted_only_by_directive.
 
+(* "The failing actor handles no further user message until its supervisor has decided." waiting t a: the object is at
+   address t, its mailbox is suspended and no user message is in flight — the situation a failure leaves behind
+   (ReportAbnormal / the panic path suspend the mailbox inside the failing step, whose in-flight message was already
+   taken out, and the pop at the end of a step takes no user message from a suspended mailbox). For every role table,
+   from every state reachable from the fresh system: a waiting actor (not a system actor) is still waiting after any
+   step whose observations contain no marker for t (Resume applied to t by a supervisor / own OnTerminated of a
+   restart completing / OnTerminate of a termination starting). While it waits, a run of its mailbox processes system
+   messages only, so no user message is handed to it, and its queued user messages keep their order
+   (C02_kernel_mailbox_order_step). *)
+Theorem C04_no_user_message_until_decision_step : forall roles ls s os l s' o u a,
+  krun roles kinit ls = Some (s, os) ->
+  get s u = Some a -> is_sys (a_tok a) = false -> waiting (a_tok a) a ->
+  kstep roles s l = Some (s', o) -> marker (a_tok a) o = false ->
+  exists a', get s' u = Some a' /\ waiting (a_tok a) a'.
+Proof.
+  intros roles ls s os l s' o u a Hr. apply no_user_step. eapply RI_reachable; [apply RI_init|exact Hr].
+Qed.
+Print Assumptions C04_no_user_message_until_decision_step.
+
+(* ... and through any number of further steps, as long as none of them shows a marker *)
+Theorem C04_no_user_message_until_decision_run : forall roles ls0 s0 os0 ls s' os u a,
+  krun roles kinit ls0 = Some (s0, os0) ->
+  get s0 u = Some a -> is_sys (a_tok a) = false -> waiting (a_tok a) a ->
+  krun roles s0 ls = Some (s', os) -> (forall o, In o os -> marker (a_tok a) o = false) ->
+  exists a', get s' u = Some a' /\ waiting (a_tok a) a'.
+Proof.
+  intros roles ls0 s0 os0 ls s' os u a Hr. apply no_user_run. eapply RI_reachable; [apply RI_init|exact Hr].
+Qed.
+Print Assumptions C04_no_user_message_until_decision_run.
+
 (* registry well-formedness in every reachable state (used above; also the basis of C12's kernel-level reading) *)
 Theorem C04_registry_wellformed : forall roles ls s os,
   krun roles kinit ls = Some (s, os) -> forall t u, lookup t (registry s) = Some u -> exists a, get s u = Some a /\ a_tok a = t.
@@ -44,3 +76,171 @@ Example C04_example :
     os = [[OSp rGuard 0]; [OH 0 0 TL 0 rNone; OSp 0 1]; [OH 1 0 TL 0 rNone]; [OS rGuard 1 1]; [OS rGuard 1 2];
           [OH 1 0 (TP 2) 1 rNone; OF 1 0]; [ODec 0 1 DResume 1]; [OH 1 0 (TP 3) 2 rNone]].
 Proof. eexists. eexists. split; vm_compute; reflexivity. Qed.
+
+(* ================================================================================================================
+   STRATEGY LAYER (MV.C04.StratModel: supervision/one_for_one.go, accident_state.go, the canned strategies, and
+   their use of time.AfterFunc).  One strategy instance shared by any number of victims; per victim the accident
+   count since the last Solved; the multiset of pending restart timers.  The back-off delay of every failure is an
+   oracle input (its VALUE is property C18's business); [oracle_ok] says the oracle respects the contract of
+   chrono.StandardExponentialBackoff: -1 exactly when a limit is set and the count exceeds it, otherwise a delay
+   in [0, max] (0 when base <= 0).  All statements hold for every operation sequence, any number of victims, every
+   limit / base / max and every decider that is a function of (victim, accident count of the record). *)
+From Coq Require Import Permutation.
+(* Floats is deliberately not imported: Print Assumptions then prints the kernel's primitive float / integer operations
+   with their full names (PrimFloat.mul, ...); they are primitives evaluated by the kernel, not logical axioms *)
+From MV Require Import C04.StratModel C04.StratRun C04.StratProofs C18.BackoffModel C04.StratOracle.
+
+(* (a) per-victim independence of a shared strategy instance: the calls about victim v, v's pending timers, v's
+   accident count and the clock are exactly those of the run of v's OWN operations (its failures, its Solved, and
+   the passing of time).  So a sibling's failure never cancels, delays, duplicates or adds a restart, and never
+   changes the count, of another victim. *)
+Theorem C04_strat_sibling_independence : forall cf dec v ops,
+  let own := filter (concerns v) ops in
+  filter (about v) (calls cf dec init ops) = calls cf dec init own
+  /\ filter (timer_of v) (timers (exec cf dec init ops)) = timers (exec cf dec init own)
+  /\ cnt (exec cf dec init ops) v = cnt (exec cf dec init own) v
+  /\ now (exec cf dec init ops) = now (exec cf dec init own).
+Proof. exact independence. Qed.
+Print Assumptions C04_strat_sibling_independence.
+
+(* (b) the ledger of restarts, with the pending-timer invariant: the Restart calls made so far together with the
+   timers still pending are, as multisets of (victim, time), exactly the restarts granted by the decisions taken
+   ([scheduled]: OneForOne deciding Restart with count <= limit or no limit -> decision time + decided delay; the
+   canned Restart strategy -> decision time); every pending timer is due strictly later than now; no call carries a
+   time later than now. *)
+Theorem C04_strat_restart_ledger : forall cf dec ops,
+  oracle_ok cf dec ops = true ->
+  let s := exec cf dec init ops in
+  let cs := calls cf dec init ops in
+  Permutation (restarts cs ++ timers s) (scheduled cf dec [] ops)
+  /\ (forall v a, In (v, a) (timers s) -> clock ops < a)
+  /\ (forall k v t, In (Call k v t) cs -> t <= clock ops).
+Proof. exact restart_ledger. Qed.
+Print Assumptions C04_strat_restart_ledger.
+
+(* ... hence: a restart granted n times for (victim v, time a) has been carried out exactly n times at exactly
+   time a and is no longer pending once the clock has reached a, and has not been carried out at all (never
+   earlier) and is pending exactly n times while the clock has not advanced that far. *)
+Theorem C04_strat_restart_exactly_once : forall cf dec ops v a,
+  oracle_ok cf dec ops = true ->
+  let n := occ (scheduled cf dec [] ops) (v, a) in
+  (a <= clock ops -> occ (restarts (calls cf dec init ops)) (v, a) = n /\ occ (timers (exec cf dec init ops)) (v, a) = O)
+  /\ (clock ops < a -> occ (restarts (calls cf dec init ops)) (v, a) = O /\ occ (timers (exec cf dec init ops)) (v, a) = n).
+Proof. exact restart_exactly_once. Qed.
+Print Assumptions C04_strat_restart_exactly_once.
+
+(* step form of (b): OneForOne deciding Restart for the c-th consecutive failure, c <= limit or limit < 0: the delay
+   lies within [0, max]; nothing is called at the decision and exactly one timer (v, decision time + delay) is
+   added (delay 0: the Restart happens at once, no timer). *)
+Theorem C04_strat_restart_granted : forall cf dec pre v d,
+  kind cf = OneForOne -> (limit cf < 0 \/ streak v pre + 1 <= limit cf) ->
+  dec v (streak v pre + 1) = DRestart ->
+  oracle_ok cf dec (pre ++ [Fail v d]) = true ->
+  let s := exec cf dec init pre in
+  0 <= d <= Z.max 0 (mx cf)
+  /\ decided cf dec pre v d = DueRestart (clock pre + d)
+  /\ (0 < d -> out cf dec s (Fail v d) = [] /\ timers (next cf dec s (Fail v d)) = timers s ++ [(v, clock pre + d)])
+  /\ (d = 0 -> out cf dec s (Fail v d) = [Call KRestart v (clock pre)] /\ timers (next cf dec s (Fail v d)) = timers s).
+Proof. exact restart_granted. Qed.
+Print Assumptions C04_strat_restart_granted.
+
+(* (c) the restart limit is honoured: with a limit >= 0, a failure that is (at least) the (limit+1)-th in a row
+   without Solved and for which the decider says Restart yields exactly Stop, at once, and no timer. *)
+Theorem C04_strat_limit_honoured : forall cf dec pre v d,
+  kind cf = OneForOne -> 0 <= limit cf -> limit cf < streak v pre + 1 ->
+  dec v (streak v pre + 1) = DRestart ->
+  oracle_ok cf dec (pre ++ [Fail v d]) = true ->
+  let s := exec cf dec init pre in
+  out cf dec s (Fail v d) = [Call KStop v (clock pre)]
+  /\ timers (next cf dec s (Fail v d)) = timers s
+  /\ decided cf dec pre v d = DueCall KStop.
+Proof. exact limit_honoured. Qed.
+Print Assumptions C04_strat_limit_honoured.
+
+(* the accident count is the number of failures since the last Solved ... *)
+Theorem C04_strat_count_exact : forall cf dec ops v, cnt (exec cf dec init ops) v = streak v ops.
+Proof. exact count_exact. Qed.
+Print Assumptions C04_strat_count_exact.
+
+(* ... which grows by one with every failure of v, without saturation (n failures in a row add n, for every n), is
+   reset to 0 by Solved, and is not touched by anything that happens to another victim or by time *)
+Theorem C04_strat_count_laws : forall v pre,
+  (forall fs, Forall (fail_of v) fs -> streak v (pre ++ fs) = streak v pre + Z.of_nat (length fs))
+  /\ streak v (pre ++ [Solved v]) = 0
+  /\ (forall o, concerns v o = false -> streak v (pre ++ [o]) = streak v pre)
+  /\ (forall d, streak v (pre ++ [Advance d]) = streak v pre).
+Proof.
+  intros v pre. split; [intros fs; apply streak_fails|]. split; [apply streak_solved|].
+  split; [intros o; apply streak_other|intros d; apply streak_advance].
+Qed.
+Print Assumptions C04_strat_count_laws.
+
+(* (d) everything that is not a Restart is called at once: the non-Restart calls of a run are, in order, exactly
+   the calls demanded by the decisions (Stop / Resume / Escalate of the decider, Stop for an exhausted limit, the
+   canned Stop and Resume), each at its decision time *)
+Theorem C04_strat_immediate_calls : forall cf dec ops,
+  oracle_ok cf dec ops = true ->
+  filter (fun c => negb (is_restart c)) (calls cf dec init ops) = immediate cf dec [] ops.
+Proof. exact immediate_calls. Qed.
+Print Assumptions C04_strat_immediate_calls.
+
+(* step form of (d): a decision other than Restart produces exactly that call, at once, and no timer *)
+Theorem C04_strat_directive_at_once : forall cf dec pre v d,
+  kind cf = OneForOne ->
+  dec v (streak v pre + 1) <> DRestart ->
+  let s := exec cf dec init pre in
+  out cf dec s (Fail v d) = [Call (call_of (dec v (streak v pre + 1))) v (clock pre)]
+  /\ timers (next cf dec s (Fail v d)) = timers s.
+Proof. exact directive_at_once. Qed.
+Print Assumptions C04_strat_directive_at_once.
+
+(* the canned RestartStrategy / StopStrategy / ResumeStrategy: exactly their call, at once, never a timer *)
+Theorem C04_strat_canned_at_once : forall cf dec pre v d,
+  kind cf <> OneForOne ->
+  let s := exec cf dec init pre in
+  out cf dec s (Fail v d) = [Call (canned_call (kind cf)) v (clock pre)]
+  /\ timers (exec cf dec init (pre ++ [Fail v d])) = [].
+Proof. exact canned_at_once. Qed.
+Print Assumptions C04_strat_canned_at_once.
+
+(* the oracle contract is not an extra assumption about the code: it is what property C18 proves of the model of
+   chrono.ExponentialBackoff (C18_stop_iff, C18_nonneg, C18_le_max, and 0 for base <= 0), for every count, limit,
+   base, max >= 0 and whatever floats math.Pow and rand.Float64 deliver *)
+Theorem C04_strat_oracle_contract_is_C18 : forall k count limit base max (rnd p r : PrimFloat.float),
+  0 <= max ->
+  adm {| kind := k; limit := limit; base := base; mx := max |} count
+      (BackoffModel.backoff count limit base max rnd p r) = true.
+Proof. exact adm_of_backoff. Qed.
+Print Assumptions C04_strat_oracle_contract_is_C18.
+
+(* ---- non-vacuity: two victims under ONE OneForOne(limit 2, base 10, max 100); victim 1 fails inside the back-off
+   window of victim 0; victim 0 then exhausts its limit while victim 1 recovers *)
+Definition strat_cf : cfg := {| kind := OneForOne; limit := 2; base := 10; mx := 100 |}.
+Definition strat_dec : decider := fun v c => if Nat.eqb v 2 then DEscalate else DRestart.
+Definition strat_ops : list op :=
+  [Fail 0 20; Fail 1 25; Advance 10; Fail 1 45; Advance 15; Fail 0 40; Advance 100; Solved 1; Fail 0 (-1); Fail 1 18; Fail 2 0].
+
+Example C04_strat_example :
+  oracle_ok strat_cf strat_dec strat_ops = true
+  /\ trace strat_cf strat_dec init strat_ops =
+     [[]; []; []; []; [Call KRestart 0 20; Call KRestart 1 25]; []; [Call KRestart 1 55; Call KRestart 0 65]; [];
+      [Call KStop 0 125]; []; [Call KEscalate 2 125]]
+  /\ timers (exec strat_cf strat_dec init strat_ops) = [(1%nat, 143)]
+  /\ scheduled strat_cf strat_dec [] strat_ops = [(0%nat, 20); (1%nat, 25); (1%nat, 55); (0%nat, 65); (1%nat, 143)]
+  /\ immediate strat_cf strat_dec [] strat_ops = [Call KStop 0 125; Call KEscalate 2 125]
+  /\ streak 0 strat_ops = 3 /\ streak 1 strat_ops = 1
+  /\ calls strat_cf strat_dec init (filter (concerns 0%nat) strat_ops) = [Call KRestart 0 20; Call KRestart 0 65; Call KStop 0 125].
+Proof. repeat split; vm_compute; reflexivity. Qed.
+
+(* the hypotheses of the step theorems are satisfiable: third failure of victim 0 (limit 2 exhausted), second failure
+   of victim 1 (granted), the Escalate decision for victim 2 *)
+Example C04_strat_example_hyps :
+  (let pre := firstn 8 strat_ops in
+   kind strat_cf = OneForOne /\ 0 <= limit strat_cf /\ limit strat_cf < streak 0 pre + 1
+   /\ strat_dec 0%nat (streak 0 pre + 1) = DRestart /\ oracle_ok strat_cf strat_dec (pre ++ [Fail 0 (-1)]) = true)
+  /\ (let pre := firstn 3 strat_ops in
+      streak 1 pre + 1 <= limit strat_cf /\ strat_dec 1%nat (streak 1 pre + 1) = DRestart
+      /\ oracle_ok strat_cf strat_dec (pre ++ [Fail 1 45]) = true)
+  /\ strat_dec 2%nat (streak 2 (firstn 10 strat_ops) + 1) <> DRestart
+  /\ kind {| kind := CannedStop; limit := 0; base := 0; mx := 0 |} <> OneForOne.
+Proof. vm_compute. repeat split; congruence. Qed.
